@@ -14,6 +14,14 @@ def subtree_datas(g, path):
     return [(pp, dt, d) for (pp, dt, d) in g.datas if pp[:len(path)] == path]
 
 
+def cpp_csize(g):
+    """cursor-based size: skip every top-level member in order, then size_bytes(m, c)"""
+    steps = "".join("m.%s(sbepp::cursor_ops::skip(c)); " % f.name for f in g.msg.fields if not f.is_constant)
+    steps += "".join("m.%s(sbepp::cursor_ops::skip(c)); " % gr.name for gr in g.msg.groups)
+    steps += "".join("m.%s(sbepp::cursor_ops::skip(c)); " % dt.name for dt in g.msg.data)
+    return "W uint64_t csize_%s(char* p, size_t n){ %s auto c = sbepp::init_cursor(m); %s return sbepp::size_bytes(m, c); }" % (g.M, g.view(), steps)
+
+
 def cpp_traits(g):
     """trait-level size_bytes(counts..., total_data) of the message and of every group + cursor-based size"""
     o = []
@@ -30,11 +38,15 @@ def cpp_traits(g):
         ps, args = sig(sub, bool(subtree_datas(g, path)))
         tag = "%s::schema::messages::%s::%s" % (ns, Mn, "::".join(path))
         o.append("W uint64_t gtsize_%s_%s(%s){ return sbepp::group_traits<%s>::size_bytes(%s); }" % (Mn, pn(path), ps, tag, args))
-    # cursor-based size: skip every top-level member in order, then size_bytes(m, c)
-    steps = "".join("m.%s(sbepp::cursor_ops::skip(c)); " % f.name for f in g.msg.fields if not f.is_constant)
-    steps += "".join("m.%s(sbepp::cursor_ops::skip(c)); " % gr.name for gr in g.msg.groups)
-    steps += "".join("m.%s(sbepp::cursor_ops::skip(c)); " % dt.name for dt in g.msg.data)
-    o.append("W uint64_t csize_%s(char* p, size_t n){ %s auto c = sbepp::init_cursor(m); %s return sbepp::size_bytes(m, c); }" % (Mn, g.view(), steps))
+    o.append(cpp_csize(g))
+    # cursor-based size after a full traversal by visiting (entries are walked through cursor_range inside the library)
+    o.append("#ifndef VERIF_WALKV\n#define VERIF_WALKV\nstruct verif_walkv {\n"
+             "  template<class T, class C, class Tag> void on_message(T m, C& c, Tag){ sbepp::visit_children(m, c, *this); }\n"
+             "  template<class T, class C, class Tag> bool on_group(T g, C& c, Tag){ sbepp::visit_children(g, c, *this); return false; }\n"
+             "  template<class T, class C> bool on_entry(T e, C& c){ sbepp::visit_children(e, c, *this); return false; }\n"
+             "  template<class T, class Tag> bool on_data(T, Tag){ return false; }\n"
+             "  template<class T, class Tag> bool on_field(T, Tag){ return false; }\n};\n#endif")
+    o.append("W uint64_t csizev_%s(char* p, size_t n){ %s auto c = sbepp::init_cursor(m); verif_walkv v; sbepp::visit_children(m, c, v); return sbepp::size_bytes(m, c); }" % (Mn, g.view()))
     return "\n".join(o) + "\n"
 
 
@@ -110,6 +122,8 @@ def consistency_arms(g):
     arms.append(("trait_vs_image", code))
     code = "    u64 cs = 0; CALL(cs = csize_%s(buf, N)); VASSERT(!verif_aborted, \"no handler\"); VASSERT(cs == r.end, \"cursor-based size after a full traversal == length of the SBE image\");\n" % g.M
     arms.append(("cursor_size", code))
+    code = "    u64 cs = 0; CALL(cs = csizev_%s(buf, N)); VASSERT(!verif_aborted, \"no handler\"); VASSERT(cs == r.end, \"cursor-based size after a full traversal by visiting (every entry walked through the cursor) == length of the SBE image\");\n" % g.M
+    arms.append(("cursor_size_visit", code))
     return arms
 
 
